@@ -819,6 +819,20 @@ func (e *Env) evalCall(n *ECall) (cval, error) {
 			b.t = e.coerceNil(b, a)
 		}
 		return cval{t: Ite(cnd, a.t, b.t), typ: a.typ}, nil
+	case "hashable":
+		// hashable(x): using interface value x as a map key does not panic
+		if err := need(1); err != nil {
+			return cval{}, err
+		}
+		v, err := e.eval(n.Args[0])
+		if err != nil {
+			return cval{}, err
+		}
+		if v.t.Sort != "Iface" {
+			return cval{t: True, typ: boolT}, nil
+		}
+		c.R.UFun("hashableT", "(declare-fun hashableT (Int) Bool)")
+		return cval{t: Or(IsNilIface(v.t), app("Bool", "hashableT", ITyp(v.t))), typ: boolT}, nil
 	case "visited":
 		// visited(k): key k already yielded by the range iterator of the current loop
 		if err := need(1); err != nil {
